@@ -206,7 +206,7 @@ func quadtreeSpecs(thorough bool) []composeSpec {
 	}
 	return []composeSpec{{
 		entry: "quadtree.New", terms: true, anyPath: true, skipTruncated: true, generalPosition: true, steps: steps, cases: cases,
-		desc:  "after the history the tree holds exactly the pointers added and not removed (InBound over the tree's bound returns each of them once); Remove answers true exactly for a stored pointer; InBound over any box returns exactly the stored pointers that lie inside the closed box",
+		desc: "after the history the tree holds exactly the pointers added and not removed (InBound over the tree's bound returns each of them once); Remove answers true exactly for a stored pointer; InBound over any box returns exactly the stored pointers that lie inside the closed box",
 		judge: func(it *Interp, cx interface{}, st *State) string {
 			ctx := cx.(*qtCtx)
 			model, _ := st.notes["model"].(*qtModel)
